@@ -623,9 +623,19 @@ class Expander:
         if n["k"] != "call" or n.get("op") != "()" or "recv" not in n:
             return None
         r = self.fn.nodes[self.fn.strip(n["recv"])]
-        if r.get("k") != "ref" or r.get("dk") != "local" or r.get("decl") not in self.single:
+        if r.get("k") != "ref" or r.get("dk") != "local":
             return None
-        top = self.fn.nodes[self.fn.strip(self.single[r["decl"]])]
+        owner = self
+        if r.get("decl") not in self.single:
+            # a closure of the enclosing function, captured by this one
+            if self.parent is None:
+                return None
+            if self._pexp is None:
+                self._pexp = Expander(self.prog, self.parent)
+            owner = self._pexp
+            if r.get("decl") not in owner.single:
+                return None
+        top = owner.fn.nodes[owner.fn.strip(owner.single[r["decl"]])]
         h = self.prog.fns.get(top.get("lusr")) if top.get("k") == "lambda" else None
         if h is None:
             return None
